@@ -63,6 +63,26 @@ func init() {
 			one(op, "", "x,w", []string{"w:2"}, "x:1,1:0", 0)
 			one(op, "", "w,x", []string{"w:3"}, "x:1,1:0", 0)
 		}
+		// boolean masks of the samples against a per-feature boolean weight of lower rank, either order
+		for _, op := range []string{"And", "Or", "Xor"} {
+			addGraph([]gnode{{"Greater", "x,t", "m", ""}, {op, "m,pf", "o", ""}}, []string{"t:2", "pf:2:bool"}, []string{"o"}, []string{"x:1,2:0"}, []int{0})
+			addGraph([]gnode{{"Less", "x,t", "m", ""}, {op, "pf,m", "o", ""}}, []string{"t:1", "pf:3:bool"}, []string{"o"}, []string{"x:1,3:0"}, []int{0})
+		}
+		// per-sample sequence lengths: refused or not, a sample must be treated alike alone and in any batch
+		for _, op := range []string{"RNN", "GRU", "LSTM"} {
+			g := map[string]int{"RNN": 1, "GRU": 3, "LSTM": 4}[op]
+			for _, lens := range []string{"3|2|3", "2|3|1", "3|3|3", "2|2|2"} {
+				for _, n := range []int{2, 3} {
+					cm := graphCase([]gnode{{op, "x,W,R,,sl", "y,yh", "hidden_size=2"}}, []string{"x:3,1,2:1", "sl:1:0"}, []string{"W:1," + itoa(g*2) + ",2", "R:1," + itoa(g*2) + ",2"}, []string{"yh"}, nil)
+					cm["sample"] = ""
+					cm["batched"] = []string{"x:3,1,2:1", "sl:1:0:i32=" + lens}
+					cm["outaxis"] = []int{1}
+					cm["n"] = n
+					cm["mayrefuse"] = true
+					p.Jobs = append(p.Jobs, Job{Harness: "gonnx.H_C16", Case: cm})
+				}
+			}
+		}
 		// values derived from the SHAPE of the batch (they change with the batch size)
 		addGraph([]gnode{{"Shape", "x", "s", ""}, {"ConstantOfShape", "s", "c", ""}, {"Add", "x,c", "o", ""}}, nil, []string{"o"}, []string{"x:1,2:0"}, []int{0})
 		addGraph([]gnode{{"Shape", "x", "s", ""}, {"Gather", "s,i0", "b", "axis=0"}, {"Concat", "b,two", "t", "axis=0"}, {"Reshape", "x,t", "r", ""}, {"Relu", "r", "o", ""}},
